@@ -89,6 +89,12 @@ FIRST_MISSED = {
     "C11-9": "no check reported it -> RETRY: initAccountCipherBox precedes every attempt to open the stream (no remembered 'already created'); C11 shares RETRY",
     "C11-10": "no check reported it -> EXCL: temporaryError.Temporary is the constant true and Accept wraps the constructors' errors in it",
     "C10-9": "no check reported it -> GBNHS-5: the re-arm send on the token channel is non-blocking (select with default)",
+    "C03-9": "no check reported it -> HSK-SIB: the bytes of the pairing secret are never written (no element store, copy or clear into the secret-holding slices)",
+    "C03-10": "no check reported it -> HSK-SIB: every successful return of stretchPassphrase is the output of this call's scrypt.Key and the parameter is not retained",
+    "C02-10": "no check reported it -> KEYSEP: split expands the transport keys with the chaining key as the HKDF key (and empty input), as Noise prescribes",
+    "C04-10": "no check reported it -> HSK-VER: NoiseGrpcConn hands its configured min/max handshake version to every machine it builds; the options store into the field of their name",
+    "C07-9": "no check reported it -> NILLATE: outside start and the goroutines it launches, a method call on a field that only start() fills in (the tickers) is under a nil check of it",
+    "C07-10": "own property silent (reported by C02 AUTHERR) -> ERRUSE extended to slice results (indexing, slicing beyond 0, encoding/binary decoders) and to errors that are handed to the caller untested",
     "C06-3": "no check reported it -> RATELIMIT: once lastResend is refreshed the packets are transmitted",
 }
 
